@@ -103,6 +103,8 @@ def classify(task, rec, clauses):
             p = "C17"
         if c == "outcome_othererror" and not had_failure:
             p = "C02"
+        if c == "outcome_othererror" and interrupted:
+            p = "C17"  # something else than KeyboardInterrupt came out of an interrupted run
         if c == "inv_LateBounded" and interrupted:
             p = "C17"
         if c == "raise_cause_is_last_exception" and task["opts"].get("retry", 1) != 1:
